@@ -1,6 +1,7 @@
 package sim
 
 import (
+	"bufio"
 	"bytes"
 	"fmt"
 	"io"
@@ -69,7 +70,7 @@ func c05Proxy(r *Run) {
 	r.Config["frames"] = fmt.Sprint(n)
 	for i := range frames {
 		frames[i] = GenFrame(T, GenOpts{Version: v, Requests: true, Responses: true, MaxBytes: maxBytes, BigChance: bigChance,
-			Compressible: T.Bool("compressible", 0.5), HeaderFlags: true, AllowTracingOnRequests: true}, int16(T.Draw("stream", 120)))
+			Compressible: T.Bool("compressible", 0.5), HeaderFlags: true, AllowTracingOnRequests: true}, DrawStreamId(T, v))
 		if comp != primitive.CompressionNone && T.Bool("compressflag", 0.6) {
 			markCompressed(T, frames[i])
 		}
@@ -86,9 +87,10 @@ func c05Proxy(r *Run) {
 	// must not forward anything for it
 	cut := T.Bool("cut", 0.2)
 	cutMode := T.Draw("cut.mode", len(c05Modes))
+	cutSrc := T.Draw("cut.src", 4) // 0 link, 1 bytes.Reader, 2 bytes.Buffer, 3 bufio.Reader
 	var cutBytes []byte
 	if cut {
-		cf := GenFrame(T, GenOpts{Version: v, Requests: true, Responses: true, MaxBytes: 400, HeaderFlags: true}, int16(T.Draw("stream", 120)))
+		cf := GenFrame(T, GenOpts{Version: v, Requests: true, Responses: true, MaxBytes: 400, HeaderFlags: true}, DrawStreamId(T, v))
 		var cb bytes.Buffer
 		if err := frameCodecFor(comp).EncodeFrame(cf, &cb); err == nil && cb.Len() > 1 {
 			cutBytes = cb.Bytes()[:1+T.Draw("cut.at", cb.Len()-1)]
@@ -283,8 +285,22 @@ func c05Proxy(r *Run) {
 			i += k
 		}
 		if cut {
-			// one more frame, of which only a prefix ever arrives: straight from the link
-			cutErr = c05Forward(pcodec, cutMode, src, b1)
+			// one more frame, of which only a prefix ever arrives: straight from the link, or from a buffer
+			// that holds whatever arrived before the stream ended
+			var in io.Reader = src
+			switch cutSrc {
+			case 1, 2, 3:
+				rest, _ := io.ReadAll(src)
+				switch cutSrc {
+				case 1:
+					in = bytes.NewReader(rest)
+				case 2:
+					in = bytes.NewBuffer(rest)
+				default:
+					in = bufio.NewReader(bytes.NewReader(rest))
+				}
+			}
+			cutErr = c05Forward(pcodec, cutMode, in, b1)
 			cutTried = true
 			r.Yield("proxy.cut")
 		}
@@ -327,7 +343,7 @@ func c05Proxy(r *Run) {
 		}
 	}
 	if cut && cutTried && cutErr == nil {
-		r.Violate(P, "proxy", "truncated-frame-accepted:"+c05Modes[cutMode], "%s returned no error for a frame of which only the first %d bytes arrived before the stream ended (version %v, compression %v)", c05Modes[cutMode], len(cutBytes), v, comp)
+		r.Violate(P, "proxy", "truncated-frame-accepted:"+c05Modes[cutMode], "%s returned no error for a frame of which only the first %d bytes arrived before the stream ended (source %s, version %v, compression %v)", c05Modes[cutMode], len(cutBytes), []string{"link", "*bytes.Reader", "*bytes.Buffer", "*bufio.Reader"}[cutSrc], v, comp)
 	}
 	// end to end: the reader sees exactly the non-dropped frames, equal to what was written, in order
 	var want []sentRec
@@ -476,7 +492,7 @@ func c05Reencode(r *Run) {
 	decoded, mutatedDecoded := 0, 0
 	r.Go("proxy", func() {
 		for i := 0; i < n; i++ {
-			f := GenFrame(T, GenOpts{Version: v, Requests: true, Responses: true, MaxBytes: 3000, BigChance: 0.1, Compressible: true, HeaderFlags: true}, int16(T.Draw("stream", 120)))
+			f := GenFrame(T, GenOpts{Version: v, Requests: true, Responses: true, MaxBytes: 3000, BigChance: 0.1, Compressible: true, HeaderFlags: true}, DrawStreamId(T, v))
 			if comp != primitive.CompressionNone && T.Bool("compressflag", 0.5) {
 				markCompressed(T, f)
 			}
